@@ -254,8 +254,8 @@ LawCovariant(A, B, f) ==
 LawMetadataSilent(A, B, f) == Sub(A, B, f) = Sub(Erase(A), Erase(B), f)
 (* ... and WHAT the metadata is plays no part: an Annotated of any kind around either side is that side        *)
 LawMetadataKind(A, B, f)   == (~HasNoAnn(A) /\ ~HasNoAnn(B)) =>
-                                  \A k \in AnnKinds : /\ Sub(AnnM(k, A), B, f) = Sub(A, B, f)
-                                                       /\ Sub(A, AnnM(k, B), f) = Sub(A, B, f)
+                                  LET s == Sub(A, B, f) IN
+                                  \A k \in AnnKinds : Sub(AnnM(k, A), B, f) = s /\ Sub(A, AnnM(k, B), f) = s
 (* arity: tuples of different fixed arity are never related; a variadic tuple is never a fixed one *)
 LawArity(A, B, f) == (~HasNoAnn(A) /\ ~HasNoAnn(B)) =>
                         /\ ~Sub(Tup2(A, A), Tup1(B), f)
